@@ -37,7 +37,7 @@ StreamChunks(evs) ==
   LET step(acc, e) ==
         CASE e.t = "S" ->
                <<PutF(acc[1], e.i,
-                      [f |-> e.name, hc |-> e.c # <<>>,
+                      [f |-> e.name, hc |-> e.c # <<>> /\ e.c # <<<<>>>>,
                        ct |-> IF e.c = <<>> THEN <<>> ELSE e.c[1]]),
                  acc[2], acc[3]>>
           [] e.t = "N" -> <<acc[1], PutF(acc[2], e.i, e.name), acc[3]>>
@@ -52,7 +52,7 @@ StreamTables(evs) ==
   LET step(acc, e) ==
         CASE e.t = "S" ->
                <<PutF(acc[1], e.i,
-                      [f |-> e.name, hc |-> e.c # <<>>,
+                      [f |-> e.name, hc |-> e.c # <<>> /\ e.c # <<<<>>>>,
                        ct |-> IF e.c = <<>> THEN <<>> ELSE e.c[1]]), acc[2]>>
           [] e.t = "N" -> <<acc[1], PutF(acc[2], e.i, e.name)>>
           [] OTHER -> acc
